@@ -569,6 +569,9 @@ func checkC13(c *Ctx, w *World) {
 
 	// ---- C13.switch-now: switchFromTo moves current inside the call exactly when it must
 	delayRules(m, c, func(string) string { return "C13.switch-now" })
+	// ---- C13.switch-later: the delayed switch completes only to a target that is still present and available ("if no
+	// endpoint is available Current() does not change") and never down from a usable endpoint (shared with C14.revalidate)
+	delayedSwitchRule(m, c, func(string) string { return "C13.switch-later" })
 
 	// ---- C13.nonempty / C13.reject
 	checkNonEmpty(m)
